@@ -31,6 +31,7 @@ fn main() {
         std::process::exit(2);
     }
     let prop = args[0].clone();
+    let _ = util::PROP.set(prop.to_lowercase());
     let mut tier = "quick".to_string();
     let mut seed = 1u64;
     let mut replay: Option<Vec<String>> = None;
